@@ -8,6 +8,7 @@ import (
 	"fmt"
 	"net"
 	"sort"
+	"sync"
 
 	set "github.com/deckarep/golang-set"
 	p4ConfigV1 "github.com/p4lang/p4runtime/go/p4/config/v1"
@@ -47,6 +48,7 @@ func vTransportErr() error {
 }
 
 type vP4Server struct {
+	mu       sync.Mutex // concurrent associations write concurrently
 	info     *p4ConfigV1.P4Info
 	tables   map[uint32]map[string]*p4.TableEntry
 	order    map[uint32][]string
@@ -124,6 +126,8 @@ func vNeedsPriority(t *p4ConfigV1.Table) bool {
 }
 
 func (s *vP4Server) Write(ctx context.Context, in *p4.WriteRequest, opts ...grpc.CallOption) (*p4.WriteResponse, error) {
+	s.mu.Lock()
+	defer s.mu.Unlock()
 	s.writes++
 	s.log = append(s.log, in.Updates...)
 	if s.writes == s.failAt || s.writes == s.failAt2 {
@@ -235,6 +239,8 @@ type vReadClient struct {
 func (r *vReadClient) Recv() (*p4.ReadResponse, error) { return r.resp, nil }
 
 func (s *vP4Server) Read(ctx context.Context, in *p4.ReadRequest, opts ...grpc.CallOption) (p4.P4Runtime_ReadClient, error) {
+	s.mu.Lock()
+	defer s.mu.Unlock()
 	s.reads++
 	resp := &p4.ReadResponse{}
 	for _, ent := range in.Entities {
